@@ -39,7 +39,14 @@ namespace Goat.Pipeline
 /-- one command of a body script -/
 inductive Cmd where
   | probe                 -- succeeds (harness: probe:begin / probe:end / probe:gate)
-  | fail                  -- returns an error (harness: probe:fail)
+  | fail                  -- RunLoop fails here: the command returns an error (harness: probe:fail), its name is UNKNOWN
+                          --   (RunCommand: "unknown command"), or its text cannot be read (it ends inside a quoted
+                          --   argument / an unterminated multi-line value); in all three cases RunLoop appends the error
+                          --   to the scope and returns.  For the last two the harness records the `cmd` / `ret … err`
+                          --   events from a marker command on the line before.
+  | stop                  -- returns nil after `Scope.Stop()` on the scope it runs in: the context is done WITHOUT an
+                          --   error (harness: probe:stop).  Only in a context of its own (`isolated`): the body of a
+                          --   try block without nested submissions.
   | spawn (c : Nat)       -- `pip:run --name=<c> --wait=… --body=…` : nested submission of task c
   | try_ (y : Nat)        -- `pip:try --name=<y> …`
 deriving DecidableEq, Repr
@@ -235,6 +242,7 @@ def cmdChildrenFinished (g : Graph) (s : St) (c : Cmd) : Bool :=
   match c with
   | .probe => true
   | .fail => true
+  | .stop => true
   | .spawn c => s.pc c == .finished
   | .try_ y => s.tg y == .done && s.pc (g.tryd y).body == .finished &&
       (g.handlers y).all fun h => !(s.pc h).accepted || s.pc h == .finished
@@ -257,6 +265,7 @@ def stepTask (g : Graph) (s : St) (t : Nat) : Option St :=
     match g.cmdAt t i with
     | none => none
     | some .probe => some (emit { s with pc := upd s.pc t (.afterCmd i) } (.ret t i true))
+    | some .stop => some (emit { s with pc := upd s.pc t (.afterCmd i) } (.ret t i true))
     | some .fail =>
       some (emit { s with pc := upd s.pc t (.closing false), cerr := upd s.cerr (g.ctx t) true } (.ret t i false))
     | some (.spawn c) =>
@@ -286,9 +295,15 @@ def stepTask (g : Graph) (s : St) (t : Nat) : Option St :=
     some (emit { s with pc := upd s.pc t .finished } (.done t (!s.cerr (g.ctx t))))
   | _ => none
 
+/-- a command with index below `j` of the body of `t` stopped the scope (they have all been executed
+when RunLoop is about to read command `j`) -/
+def selfStopped (g : Graph) (t j : Nat) : Bool :=
+  (List.range j).any fun i => g.cmdAt t i == some .stop
+
 def stepStop (g : Graph) (s : St) (t : Nat) : Option St :=
   match s.pc t with
-  | .run _ => if s.cerr (g.ctx t) then some { s with pc := upd s.pc t (.closing false) } else none
+  | .run j =>
+    if s.cerr (g.ctx t) || selfStopped g t j then some { s with pc := upd s.pc t (.closing false) } else none
   | _ => none
 
 /-- one `Runner.Run` of a handler from the try goroutine: `sel` = this handler is to be run -/
@@ -344,10 +359,16 @@ def waitOk (g : Graph) (t w : Nat) : Bool :=
     ((match g.role w with | .top => true | .child _ _ => true | _ => false) &&
       g.depth w == g.depth t && g.ctx w == g.ctx t)
 
+/-- task `t` is alone in its context: the body of a try block that submits nothing -/
+def isolated (g : Graph) (t : Nat) : Bool :=
+  (match g.role t with | .tbody _ => true | _ => false) &&
+  (g.body t).all fun c => match c with | .spawn _ => false | .try_ _ => false | _ => true
+
 def cmdOk (g : Graph) (t i : Nat) (c : Cmd) : Bool :=
   match c with
   | .probe => true
   | .fail => true
+  | .stop => isolated g t
   | .spawn c => decide (c < g.n) && g.role c == .child t i
   | .try_ y => decide (y < g.tries.length) && (g.tryd y).owner == t && (g.tryd y).idx == i
 
@@ -472,9 +493,15 @@ def cmdClosed (g : Graph) (pre : List Ev) (t i : Nat) : Prop :=
         (∀ h ∈ selected g pre y, handlerFate g pre y h)
     | _ => True)
 
+/-- a command of `t` that stops the scope has been entered (and the first command too): the task may
+close WITHOUT error although not all of its commands ran — those that were entered completed -/
+def selfStop (g : Graph) (pre : List Ev) (t : Nat) : Prop :=
+  Ev.cmd t 0 ∈ pre ∧ ∃ i ∈ List.range (g.body t).length, g.cmdAt t i = some .stop ∧ Ev.cmd t i ∈ pre
+
 def retOk (g : Graph) (pre : List Ev) (t i : Nat) (ok : Bool) : Prop :=
   match g.cmdAt t i with
   | some .probe => ok = true
+  | some .stop => ok = true
   | some .fail => ok = false
   | some (.spawn c) => ok = true → ∀ w ∈ g.waits c, acceptedEv g pre w
   | some (.try_ _) => True
@@ -491,7 +518,9 @@ def Ok (g : Graph) (pre : List Ev) : Ev → Prop
   | .ret t i ok => Ev.cmd t i ∈ pre ∧ ¬ hasRet pre t i ∧ ¬ hasDone pre t ∧ retOk g pre t i ok
   | .done t ok => ¬ hasDone pre t ∧
       (∀ i ∈ List.range (g.body t).length, Ev.cmd t i ∈ pre → cmdClosed g pre t i) ∧
-      (if ok then waitsOk g pre t ∧ ∀ i ∈ List.range (g.body t).length, cmdDoneOk g pre t i
+      (if ok then waitsOk g pre t ∧
+          ((∀ i ∈ List.range (g.body t).length, cmdDoneOk g pre t i) ∨
+           (selfStop g pre t ∧ ∀ i ∈ List.range (g.body t).length, Ev.cmd t i ∈ pre → cmdDoneOk g pre t i))
        else causeFor g pre t)
   | .mwait ok => (∀ t ∈ List.range g.n, acceptedEv g pre t → hasDone pre t) ∧
       (if ok then ∀ e ∈ pre, isDoneFail e = false else anyCause pre)
@@ -535,6 +564,7 @@ instance (g : Graph) (pre : List Ev) (y h : Nat) : Decidable (handlerFate g pre 
   unfold handlerFate; infer_instance
 instance (g : Graph) (pre : List Ev) (t i : Nat) : Decidable (cmdClosed g pre t i) := by
   unfold cmdClosed; split <;> infer_instance
+instance (g : Graph) (pre : List Ev) (t : Nat) : Decidable (selfStop g pre t) := by unfold selfStop; infer_instance
 instance (g : Graph) (pre : List Ev) (t i : Nat) (ok : Bool) : Decidable (retOk g pre t i ok) := by
   unfold retOk; split <;> infer_instance
 instance (g : Graph) (pre : List Ev) (e : Ev) : Decidable (Ok g pre e) := by
